@@ -88,7 +88,7 @@ def tlc_histories(F, A, K, D, bug='none'):
     fin = os.path.join(d, f'h{abs(hash((json.dumps(F, sort_keys=True), K, D))) % 10**9}.json')
     with open(fin, 'w') as f:
         json.dump({'F': F, 'alphabet': A, 'K': K, 'D': D}, f)
-    res = tlc.run('MC_History', 'MC_History', workers=1, timeout=1200, extra_env={'VZ_IN': fin}, check_ok=False, small=True)
+    res = tlc.run('MC_History', 'MC_History', workers=1, timeout=1200 if D <= 2 else 7200, extra_env={'VZ_IN': fin}, check_ok=False, small=True)
     hist = {}
     for m in re.finditer(r'<<"H", <<([\d, ]*)>>, <<([^>]*)>>>>', res['output']):
         h = tuple(int(x) for x in m.group(1).split(',') if x.strip())
